@@ -259,6 +259,14 @@ Definition sweep_set_ContainsValue := flat_map (fun rk => flat_map (fun l => fla
 Definition sweep_set_GetIndex := flat_map (fun rk => flat_map (fun l => flat_map (fun x =>
   cmpx (rank_ext rk) id_GetIndex (setv l) [VElem x]
        (of_out (setv l) (fun k => ORet (VInt (Z.of_nat k), setv l)) (set_get_index 0 rk l x))) probes) lists) rankers.
+Definition sweep_set_AddValues := flat_map (fun rk => flat_map (fun l => flat_map (fun src =>
+  cmpx (rank_ext rk) id_AddValues (setv l) [aval src]
+       (of_out (setv l) (fun l' => ret_unit (setv l')) (set_add_all 0 rk l src))) [[]; [5]; [22; 5; 22]; [60; 40; 16; 11]]) lists) rankers.
+Definition sweep_set_RemoveValues := flat_map (fun rk => flat_map (fun l => flat_map (fun src =>
+  cmpx (rank_ext rk) id_RemoveValues (setv l) [aval src]
+       (of_out (setv l) (fun l' => ret_unit (setv l')) (set_remove_all 0 rk l src))) [[]; [5]; [22; 5; 22]; [55; 33; 16; 11]]) lists) rankers.
+Definition sweep_set_RemoveAll := flat_map (fun l => cmpx (rank_ext Z.compare) id_RemoveAll (setv l) [] (ret_unit (setv []))) lists.
 Definition sweeps_C02 : list disagreement :=
+  sweep_set_AddValues ++ sweep_set_RemoveValues ++ sweep_set_RemoveAll ++
   sweep_set_findIndex ++ sweep_set_AddValue ++ sweep_set_RemoveValue ++ sweep_set_ContainsValue ++ sweep_set_GetIndex ++
   sweeps_seq.
